@@ -1,5 +1,5 @@
 ---------------------------- MODULE ReceiverImpl ----------------------------
-(* Explorer model of cmd/cmaf-ingest-receiver AS WRITTEN: segDataBuffer, seqCounters,
+(* Explorer model of cmd/cmaf-ingest-receiver: segDataBuffer, seqCounters,
    segmentTimelineGenerator and the start-up logic of channel.receivedSegData, for an unshifted
    channel with equal master segment durations, driven sequentially (the (R) driver waits for the
    `process` event of every upload before it sends the next one).
@@ -8,7 +8,10 @@
    the array moves the model to the absorbing state panic = TRUE (the channel goroutine dies).
    Uniform result tuples <<"ok", x>>, <<"err">>, <<"PANIC">> (TLC cannot compare a record with a string).
    The properties are the C17 clauses on the explorer's abstraction (ReceiverOps); violations are
-   DESIGN results - a verdict needs the replay of the history against the real handler. *)
+   DESIGN results - a verdict needs the replay of the history against the real handler.
+   The five Fix* constants select the algorithm: all TRUE = the CURRENT code (after the fix commits named at
+   the constants), all FALSE = the algorithm as originally written, kept for the documented design
+   counterexamples (the ReceiverImpl_cex_... configs). *)
 EXTENDS Integers, Sequences, FiniteSets, TLC, Json, ReceiverOps
 CONSTANTS Tracks,        \* set of track names (strings)
           Master,        \* the first video track
@@ -20,7 +23,12 @@ CONSTANTS Tracks,        \* set of track names (strings)
           InitWindow,    \* initialSegmentsWindow (8 in the code)
           Video,         \* the video tracks (deriveAndSetFrameRates looks at their buffers)
           NoBtrt,        \* tracks whose init segment has no btrt box (deriveAndSetBitrates looks at their buffers)
-          RecordHist     \* TRUE: keep the upload order in the state (generator configs)
+          RecordHist,    \* TRUE: keep the upload order in the state (generator configs)
+          FixBufResize,    \* c525f77: segDataBuffer.resize to a smaller window also updates size
+          FixCtrResize,    \* 058c844: seqCounters.resize to a smaller window keeps the newest counters and updates the fill
+          FixDropBound,    \* 34c3a50: seqCounters.add bounds nrToDrop by the fill
+          FixDeriveGuards, \* 3d9bf84: deriveAndSetBitrates / deriveAndSetFrameRates skip tracks without segments
+          FixLateTrack     \* cdab72e: a buffer created after start bumps _nrTracks; every Representation is checked
 VARIABLES upl,      \* the chosen element of UploadSets
           sw,       \* the chosen element of Windows
           pos,      \* [Tracks -> Nat] uploads sent so far per track
@@ -67,10 +75,11 @@ BufAdd(b, s) ==
                      n2   == IF disc = 0 THEN b.n + 1 ELSE b.n - (disc - 1)
                  IN IF n2 > Len(b.items) \/ n2 < 1 THEN Panic
                     ELSE Ok([b EXCEPT !.items = [CopyDown(b.items, disc) EXCEPT ![n2] = s], !.n = n2])
-(* ---- segDataBuffer.resize: the shrinking branch does NOT update size (as in the code) ---- *)
+(* ---- segDataBuffer.resize: as written the shrinking branch does NOT update size ---- *)
 BufResize(b, ns) ==
   IF ns = b.size THEN b
-  ELSE IF ns < b.n THEN [b EXCEPT !.items = SubSeq(CopyDown(b.items, b.n - ns), 1, ns), !.n = ns]
+  ELSE IF ns < b.n THEN [b EXCEPT !.items = SubSeq(CopyDown(b.items, b.n - ns), 1, ns), !.n = ns,
+                                  !.size = IF FixBufResize THEN ns ELSE b.size]
   ELSE [b EXCEPT !.items = [j \in 1..ns |-> IF j <= Len(b.items) THEN b.items[j] ELSE 0], !.size = ns]
 BufHas(b, s) == b.made /\ \E j \in 1..b.n : j <= Len(b.items) /\ b.items[j] = s
 BufDrop(b, s) ==
@@ -89,7 +98,8 @@ CtrAdd(c, s) ==
    IF s < mn THEN Ok(c)
    ELSE IF s > mx THEN
         LET mn2  == MinFromMax(c, s)
-            drop == Cardinality({j \in 1..c.n : c.seq[j] < mn2}) + (IF c.n = c.ws THEN 1 ELSE 0)
+            drop0 == Cardinality({j \in 1..c.n : c.seq[j] < mn2}) + (IF c.n = c.ws THEN 1 ELSE 0)
+            drop == IF FixDropBound /\ drop0 > c.n THEN c.n ELSE drop0
         IN IF drop > Len(c.seq) THEN Panic                               \* s.counters[nrToDrop:]
            ELSE LET n2 == c.n - drop IN
                 IF n2 < 0 \/ n2 + 1 > Len(c.seq) THEN Panic              \* uint32 wrap / s.counters[s._nrCounters]
@@ -109,11 +119,14 @@ CtrAdd(c, s) ==
                       cn == IF c.n < c.ws THEN ShiftUp(c.cnt, i + 2, c.n) ELSE ShiftUp(c.cnt, 2, i)
                   IN \* counters[i-1] = {seqNr, 1}: the smaller neighbour is overwritten, n unchanged
                      Ok([c EXCEPT !.seq = [sq EXCEPT ![i] = s], !.cnt = [cn EXCEPT ![i] = 1]])
-\* seqCounters.resize: the shrinking branch does NOT update _nrCounters (as in the code)
+\* seqCounters.resize: as written the shrinking branch does NOT update _nrCounters
 CtrResize(c, ns) ==
   IF ns > c.ws THEN [c EXCEPT !.seq = [j \in 1..ns |-> IF j <= Len(c.seq) THEN c.seq[j] ELSE 0],
                               !.cnt = [j \in 1..ns |-> IF j <= Len(c.cnt) THEN c.cnt[j] ELSE 0], !.ws = ns]
-  ELSE IF ns < c.ws THEN [c EXCEPT !.seq = SubSeq(c.seq, 1, ns), !.cnt = SubSeq(c.cnt, 1, ns), !.ws = ns]
+  ELSE IF ns < c.ws THEN
+       IF FixCtrResize /\ c.n > ns /\ c.n <= Len(c.seq)
+       THEN [c EXCEPT !.seq = SubSeq(c.seq, c.n - ns + 1, c.n), !.cnt = SubSeq(c.cnt, c.n - ns + 1, c.n), !.n = ns, !.ws = ns]
+       ELSE [c EXCEPT !.seq = SubSeq(c.seq, 1, ns), !.cnt = SubSeq(c.cnt, 1, ns), !.ws = ns]
   ELSE c
 CtrDrop(c, s) ==
   IF \E j \in 1..c.n : j <= Len(c.seq) /\ c.seq[j] = s
@@ -137,8 +150,8 @@ FullRange(c, nt) ==
                 fj  == CHOOSE j \in run : \A k \in run : j <= k
             IN <<c.seq[fj], c.seq[lj]>>
 
-\* the instance (upload sequences, window) is chosen by the first step, not in Init: TLC's simulation mode
-\* becomes very slow with hundreds of initial states
+\* the instance (upload sequences, window) is chosen by the first step (Choose), not in Init, so that there is one
+\* initial state whatever the size of UploadSets
 Init == /\ upl = [t \in Tracks |-> <<>>] /\ sw = 0
         /\ pos = [t \in Tracks |-> 0] /\ reg = InitOrder /\ bufs = [t \in Tracks |-> NoBuf]
         /\ ctr = NewCtr(InitWindow) /\ started = FALSE /\ nrTracks = 0 /\ latest = 0
@@ -179,18 +192,21 @@ Process(t) ==
             rc == IF r1[1] = "ok" THEN CtrAdd(ctr, s) ELSE Ok(ctr)      \* counters.add only after a successful buffer add
             c1 == IF rc[1] = "ok" THEN rc[2] ELSE ctr
             bs1 == [bufs EXCEPT ![t] = b1]
-            newSeq == IF started /\ r1[1] = "ok" THEN NewFull(c1, nrTracks, latest) ELSE 0
-            fr == FullRange(c1, nrTracks)
-            \* modifySegmentTemplate looks only at Representations[0] of every AdaptationSet
-            tmplOK == \A u \in FirstReps : bs1[u].made /\ \A k \in fr[1]..fr[2] : BufHas(bs1[u], k)
+            \* addSegmentData: a buffer created after start bumps _nrTracks (FixLateTrack)
+            nt1 == IF FixLateTrack /\ started /\ ~bufs[t].made THEN Cardinality({u \in Tracks : bufs[u].made}) + 1 ELSE nrTracks
+            newSeq == IF started /\ r1[1] = "ok" THEN NewFull(c1, nt1, latest) ELSE 0
+            fr == FullRange(c1, nt1)
+            \* modifySegmentTemplate: as written only Representations[0] of every AdaptationSet is looked at
+            tmplOK == \A u \in (IF FixLateTrack THEN Registered ELSE FirstReps) :
+                         bs1[u].made /\ \A k \in fr[1]..fr[2] : BufHas(bs1[u], k)
             wrote == newSeq # 0 /\ newSeq > latest /\ newSeq <= fr[2] /\ tmplOK
             lat1 == IF wrote THEN fr[2] ELSE latest
             \* the master has two consecutive numbers: masterSegDuration is set, then deriveAndSetBitrates and
             \* deriveAndSetFrameRates read segDataBuffers[name] of EVERY registered track (nil for a track without
             \* segments; bitrate = size*8*timescale / totDur divides by 0 for an emptied buffer), then start()
             starting == masterDur = 0 /\ t = Master /\ r1[1] # "PANIC" /\ b1.n >= 2 /\ b1.items[2] = b1.items[1] + 1
-            nilDeref == \E u \in Registered : u \in (NoBtrt \cup Video) /\ ~bs1[u].made
-            divZero  == \E u \in Registered \cap NoBtrt : bs1[u].made /\ bs1[u].n = 0
+            nilDeref == ~FixDeriveGuards /\ \E u \in Registered : u \in (NoBtrt \cup Video) /\ ~bs1[u].made
+            divZero  == ~FixDeriveGuards /\ \E u \in Registered \cap NoBtrt : bs1[u].made /\ bs1[u].n = 0
         IN /\ files' = files1
            /\ post' = IF masterDur # 0 THEN post \cup {t} ELSE post
            /\ IF r1[1] = "PANIC" \/ rc[1] = "PANIC" \/ (starting /\ (nilDeref \/ divZero))
@@ -214,8 +230,8 @@ Process(t) ==
                                 /\ bufs' = [u \in Tracks |-> IF ~bs1[u].made THEN bs1[u] ELSE BufResize(bs1[u], sw)]
                                 /\ ctr' = CtrResize(c1, sw)
                                 /\ nrTracks' = Cardinality({u \in Tracks : bs1[u].made})   \* frozen here
-                      ELSE /\ bufs' = bs1 /\ ctr' = c1
-                           /\ UNCHANGED <<started, nrTracks, genWindow, masterDur>>
+                      ELSE /\ bufs' = bs1 /\ ctr' = c1 /\ nrTracks' = nt1
+                           /\ UNCHANGED <<started, genWindow, masterDur>>
 Next == Choose \/ \E t \in Tracks : Process(t) \/ Register(t)
 Spec == Init /\ [][Next]_vars
 
@@ -238,7 +254,7 @@ BoundedBuf == /\ \A t \in Tracks : bufs[t].made => bufs[t].n <= Len(bufs[t].item
 BoundedFiles == \A t \in post : FilesBounded(Cardinality(files[t]), MaxBufSegs)                \* C17.bounded (storage)
 Bounded == BoundedBuf /\ BoundedFiles
 SyncBounded == (pos[Master] >= 2 => \A t \in Tracks : pos[t] >= 1 /\ t \in Range(reg)) => Bounded
-\* sanity of the model itself (never expected to fail): the published range is inside the master's files
+\* sanity of the model itself (never expected to fail): the published range is well formed and ends at latestSeqNr
 TypeOK == /\ latest >= 0 /\ (mpd # <<>> => mpd[1] <= mpd[2] /\ mpd[2] = latest)
 
 (* ---- (R): every terminal behaviour as one JSON line ---- *)
